@@ -11,6 +11,7 @@ def main(tier):
     dep.alias_callers(P, rep)
     footprint.alias_sites(P, rep)
     footprint.ridge_alias_twins(P, rep)
+    footprint.bezier_periodic_start(P, rep)
     kernels.point_kernels(P, rep)
     rep.assumptions.append("translation / rotation invariance in Cartesian worlds and longitude-offset invariance are statements about real "
                            "arithmetic in every kernel: decided only for the distance kernels of Point (closed forms that are invariant by inspection of "
